@@ -142,7 +142,10 @@ end XV.Spec.OpTables
 namespace XV.Spec.OpTables
 open XV XV.Model
 
-def snapFor (t : OpTable) : Option SnapTable := Gen.allSnaps.find? (fun s => s.name == t.name)
+/-- snapshots are looked up by (version, variant): table names are `opcode_<XY>[pypy]`, one per
+    (version, variant); `String` comparison is avoided because it is very slow in the kernel -/
+def snapFor (t : OpTable) : Option SnapTable :=
+  Gen.allSnaps.find? (fun s => Nat.beq s.version.1 t.version.1 && Nat.beq s.version.2 t.version.2 && (s.isPypy == t.isPypy))
 
 def snapChecks (t : OpTable) (s : SnapTable) : List (String × Bool) :=
   [ ("opmap", pairsEq t.opmap s.opmap),
